@@ -230,7 +230,14 @@ func lsDoLog(n *lsNode, op *lsOp) {
 		case logger.LevelWarn:
 			n.lg.Warn(op.msg, drvAttrsAsArgs(as)...)
 		case logger.LevelError:
-			n.lg.Error(op.msg, drvAttrsAsArgs(as)...)
+			if len(op.msg)%2 == 0 {
+				n.lg.Error(op.msg, drvAttrsAsArgs(as)...)
+			} else { // Panic = one Error-level record, then panic(msg)
+				func() {
+					defer func() { recover() }()
+					n.lg.Panic(op.msg, drvAttrsAsArgs(as)...)
+				}()
+			}
 		default:
 			n.lg.Log(ctx, lv, op.msg, drvAttrsAsArgs(as)...)
 		}
@@ -243,7 +250,14 @@ func lsDoLog(n *lsNode, op *lsOp) {
 		case logger.LevelWarn:
 			n.lg.Warnf("%s", op.msg)
 		case logger.LevelError:
-			n.lg.Errorf("%s", op.msg)
+			if len(op.msg)%2 == 0 {
+				n.lg.Errorf("%s", op.msg)
+			} else {
+				func() {
+					defer func() { recover() }()
+					n.lg.Panicf("%s", op.msg)
+				}()
+			}
 		default:
 			n.lg.Logf(ctx, lv, "%s", op.msg)
 		}
